@@ -967,3 +967,24 @@ def U_MF_games():
                 tl += [[(1, s)] for s in range(3, n)]
                 games.append(game_of([PR, P1, P2] + [PR] * (n - 3), tl, list(finals), [1, 2, 1] + [0] * (n - 3)))
     return games
+
+
+def U_ULP_games():
+    """values above 2**33, where one unit in the last place of a double exceeds the solver's threshold of 1e-6: a 6-state stopping game
+    (Player 1 entry, Player 2 state that could go to the goal, a probabilistic state that leaves a rewarded cycle with probability 3/4)
+    with integer rewards k * 10**9; the vector found by the third defect search plus 47 vectors from a fixed linear congruential sequence,
+    and the same with rewards k * 10**13"""
+    games = []
+    vecs = [[8, 15, 9, 11]]
+    x = 12345
+    for _ in range(47):
+        v = []
+        for _ in range(4):
+            x = (1103515245 * x + 12345) % (2 ** 31)
+            v.append(1 + (x >> 8) % 30)
+        vecs.append(v)
+    for scale in (10 ** 9, 10 ** 13):
+        for v in (vecs if scale == 10 ** 9 else vecs[:12]):
+            tl = [[(ACTIONS[0], 1), (ACTIONS[1], 2)], [(ACTIONS[0], 2), (ACTIONS[1], 4)], [(0.25, 3), (0.75, 5)], [(1, 0)], [(1, 4)], [(1, 5)]]
+            games.append(game_of([P1, P2, PR, PR, PR, PR], tl, [4], [k * scale for k in v] + [0, 0]))
+    return games
